@@ -143,6 +143,17 @@ theorem leaky_prints_secret (t : Ty) (ht : leaky t = true) (pub : String) (s₁ 
     render (debugFmt t) ⟨pub, s₁⟩ ≠ render (debugFmt t) ⟨pub, s₂⟩ :=
   SecretFmt.Lemmas.render_depends_on_secret _ ht pub s₁ s₂ hs
 
+/-- The full statement holds exactly when no type is classified as leaky: the bridge that turns the classification table into
+    the property (and, once the redacting `Debug` impls are in, turns `leaky t = false` for all `t` into `FmtNonInterfering`). -/
+theorem fmt_noninterfering_iff : FmtNonInterfering ↔ ∀ t, leaky t = false := by
+  constructor
+  · intro h t
+    cases ht : leaky t with
+    | false => rfl
+    | true => exact absurd (h t "" [1] [2]) (leaky_prints_secret t ht "" [1] [2] (by decide))
+  · intro h t pub s₁ s₂
+    exact fmt_noninterfering_partial t (h t) pub s₁ s₂
+
 /-- The full statement is refuted on the model of the current code (witness: D9, `Options` with two different passwords). -/
 theorem fmt_noninterfering_refuted : ¬ FmtNonInterfering := by
   intro h
